@@ -461,6 +461,12 @@ OPTION_VALUES = ["", "c1", "c1 c2", "left", "center", "right", "LEFT", "100", "0
                  "9" * 40, "utf-8", "a.png", "/t", "javascript:x", "two words", "x\"y", "<b>", "&amp;", "tip", "note", " ", "\u3000", "\x0b"]
 
 
+KNOWN_OPTIONS = {"image": ["alt", "width", "height", "align", "target"], "figure": ["alt", "width", "height", "align", "target", "figclass", "figwidth"],
+                 "toc": ["min-level", "max-level", "collapse"], "include": ["encoding"]}
+NUMERIC_OPTIONS = ("width", "height", "figwidth", "min-level", "max-level")
+NUMERIC_VALUES = ["100", "050", "100px", "50%", "10\u00b2", "\uff11\uff10\uff10", "\u0661\u0660", "\u2460", "\u00b2", "1e3", "-1", "0", "1", "2", "3", "6", "7", "1.5", "9" * 40, "", "1\u2082", "12\u00bd", "4\u2074px"]
+
+
 def directive_doc(r, style=None, values=None):
     """one to three directives of any type (admonitions, image, figure, toc, include, unknown) in the fenced, colon-fenced or RST
     style, each with a random title, 0-4 options of any name (known to that directive, known to another one, unknown, names the
@@ -469,9 +475,14 @@ def directive_doc(r, style=None, values=None):
     style = style or r.choice(["fenced", "colon", "rst"])
     out = []
     for _ in range(r.randint(1, 3)):
-        ty = r.choice(DIRECTIVE_TYPES)
+        ty = r.choice(DIRECTIVE_TYPES + ["image", "figure", "image", "toc"])
         title = r.choice(["", "", "T", "Title *x*", "a.png", "/i/p.png", words(r, 1, 3)])
-        opts = [(r.choice(OPTION_NAMES), r.choice(values or OPTION_VALUES)) for _ in range(r.choice([0, 1, 1, 2, 3, 4]))]
+        opts = []
+        for _ in range(r.choice([0, 1, 1, 2, 3, 4])):
+            # mostly an option the directive knows, mostly with a value of the kind it expects (in every spelling of that kind)
+            name = r.choice(KNOWN_OPTIONS.get(ty, ["class", "name"])) if r.random() < 0.7 else r.choice(OPTION_NAMES)
+            pool = values or (NUMERIC_VALUES if (name in NUMERIC_OPTIONS and r.random() < 0.7) else OPTION_VALUES)
+            opts.append((name, r.choice(pool)))
         body = r.choice(["", "", words(r) + "\n", "body *text*\n\nsecond\n", "- item\n- two\n", "> q\n", "caption\n\nlegend\n"])
         if style == "rst":
             d = ".. %s::%s\n" % (ty, (" " + title) if title else "") + "".join("   :%s:%s\n" % (k, (" " + v) if v else "") for k, v in opts)
